@@ -127,6 +127,9 @@ class Model:
             return {"queryType": {"name": self.spec.query}}
         if node.name == "__type":
             t = node.kwargs["name"]
+            if t not in self.spec.objects and t not in self.spec.interfaces \
+                    and t not in self.spec.unions:
+                return None  # "returns null if no such type" (spec 4.2)
             exp.resolved.append(path + ("name",))
             exp.resolved.append(path + ("kind",))
             kind = ("OBJECT" if t in self.spec.objects else
